@@ -24,10 +24,14 @@ from harness import c01_common as cm
 
 
 # ------------------------------------------------------------------ generated harness module
-def generate(tier, seed, check_fn="check_c01", specs=None, modname="c01_gen", header_extra=""):
+def generate(tier, seed, check_fn="check_c01", specs=None, modname="c01_gen", header_extra="", header=None):
     specs = specs if specs is not None else cm.all_specs(tier, seed)
     funcs = []
+    groups = {}
     for i, s in enumerate(specs):
+        if not s.holes():
+            groups.setdefault(s.name.rsplit("-", 1)[0], []).append(i)
+            continue
         args, pres, vals = [], [], []
         for h in s.holes():
             a_, p_, v_ = cm.wrapper_args(h, cm.MAXLEN[tier])
@@ -35,14 +39,18 @@ def generate(tier, seed, check_fn="check_c01", specs=None, modname="c01_gen", he
             pres += p_
             vals.append('"%s": %s' % (h.name, v_))
         vals = "{" + ", ".join(vals) + "}"
-        if not args:
-            args = [("dummy", "bool")]
         funcs.append(("sk_%d" % i, args, pres, ["return V(%s(%d, %s))" % (check_fn, i, vals)]))
+    # skeletons without holes (type-changing words): one condition per group, the member index is the argument
+    entries = [(f[0], [int(f[0].split("_")[1])]) for f in funcs]
+    for gname, members in groups.items():
+        funcs.append(("grp_%d" % members[0], [("i", "int")], ["0 <= i < %d" % len(members)],
+                      ["return V(%s(cm.pick(%r, i), {}))" % (check_fn, members)]))
+        entries.append(("grp_%d" % members[0], members))
     d = gen.gen_dir()
     path = gen.write_module(os.path.join(d, modname + ".py"),
-                            "from harness.c01_rt import *  # noqa: F401,F403\n"
-                            "from harness.c01_rt import SPECS, N, cm, %s\n%s" % (check_fn, header_extra), funcs)
-    return d, path, specs
+                            header or ("from harness.c01_rt import *  # noqa: F401,F403\n"
+                                       "from harness.c01_rt import SPECS, N, cm, %s\n%s" % (check_fn, header_extra)), funcs)
+    return d, path, specs, entries
 
 
 def values_from_call(spec, args, tier):
@@ -81,6 +89,8 @@ def make_replayer(specs, tier):
 
     def replayer(name, args, kwargs, meta):
         i = int(name.split("_")[1])
+        if name.startswith("grp_"):
+            i = meta["members"][args[0]]
         spec = specs[i]
         vals = values_from_call(spec, list(args), tier) if spec.holes() else {}
         text, holes = skel.assemble(spec.parts())
@@ -170,7 +180,7 @@ def main():
     tier = sys.argv[1] if len(sys.argv) > 1 else "quick"
     seed = int(sys.argv[2]) if len(sys.argv) > 2 else 0
     rep = Report("C01", tier, seed)
-    gdir, path, specs = generate(tier, seed)
+    gdir, path, specs, entries = generate(tier, seed)
     try:
         rep.describe(
             explanation=(
@@ -200,11 +210,14 @@ def main():
         TL = 75 if tier == "quick" else 480
         env = {"XH_TIER": tier, "XH_SEED": seed}
         conds = []
-        for i, s in enumerate(specs):
+        for fname, members in entries:
+            s = specs[members[0]]
             heavy = s.name.startswith("layout-")
-            conds.append(xh.Cond(path, "sk_%d" % i, timeout=TL if heavy else T, env=env,
-                                 meta={"variant": s.name, "family": s.name.split("-")[0],
-                                       "bound": "holes " + ", ".join("%s:%s" % (h.name, h.kind) for h in s.holes())}))
+            conds.append(xh.Cond(path, fname, timeout=TL if heavy else T, env=env,
+                                 meta={"variant": s.name if len(members) == 1 else s.name.rsplit("-", 1)[0] + "-*",
+                                       "family": s.name.split("-")[0], "members": members,
+                                       "bound": ("holes " + ", ".join("%s:%s" % (h.name, h.kind) for h in s.holes())) if len(members) == 1
+                                       else "%d hole-less skeletons (type-changing first words %r)" % (len(members), cm.FIRSTW_MENU)}))
         conds.append(xh.Cond(path, "sk_0", timeout=30, twin=True, env=env, meta={"variant": specs[0].name, "family": "twin"}))
         li = [i for i, s in enumerate(specs) if s.name.startswith("layout-")][1]
         conds.append(xh.Cond(path, "sk_%d" % li, timeout=60, twin=True, env=env, meta={"variant": specs[li].name, "family": "twin"}))
